@@ -441,6 +441,25 @@ func T1() { foo() }
 // keep doc r
 func keep() {}
 `},
+	{name: "line-directive-multi-line-change", marker: "nosuchname", fixed: "f",
+		patch: "@@\nvar x expression\n@@\n-if x != nil {\n-  return x\n-}\n-return nil\n+return x\n",
+		src: `package a
+
+// keep doc l
+func keep() {} // keep eol l
+
+//line gen.y:1000
+func f() error {
+	err := g()
+	if err != nil {
+		return err
+	}
+	return nil
+}
+
+// after doc l
+func after() {}
+`},
 	{name: "two-changes", marker: "old", fixed: "gone",
 		patch: "@@\nvar x expression\n@@\n-old(x)\n+mid(x)\n\n@@\n@@\n-func gone() {}\n+var gone = func() {}\n",
 		src: `package p
